@@ -165,7 +165,20 @@ func (x *Exec) instr(fr *Frame, b *ssa.BasicBlock, st *State, ins ssa.Instructio
 // materialize turns a symbolic value into a single SMT term of its type.
 func (x *Exec) materialize(st *State, v Val, t types.Type) Term {
 	if v.Addr != nil {
-		// a pointer that is an interior address cannot be stored as a reference
+		// The address of a field of an object escapes as a value (e.g. &w.Name put into
+		// a filter struct). It becomes an opaque reference, a function of the object and
+		// the field; what is read through it later is unconstrained (an over-
+		// approximation), and writes through it are not seen by the field. Only allowed
+		// for field addresses without projections.
+		a := v.Addr
+		if a.Kind == akField && len(a.Path) == 0 {
+			fn := fmt.Sprintf("addrof$%s$%s", strings.TrimPrefix(a.SSort, "S_"), sanitize(a.Struct.Field(a.Field).Name()))
+			x.declUF(fn, "(Int) Int")
+			r := Term{app(fn, a.Ref), "Int"}
+			x.assumed["escaping field address "+fn+": reads through the escaped pointer are unconstrained, writes through it are not tracked"] = true
+			x.assume(Term{app(">", r, intLit(0)), "Bool"})
+			return r
+		}
 		panic(toolErr("interior address escapes (stored/returned/passed): " + t.String()))
 	}
 	if v.Tuple != nil {
